@@ -84,12 +84,12 @@ type otelRule struct {
 	BaseRule
 	counts map[string]int
 	errKey string
-	kind   string // "start" or "complete"
+	kind   string            // "start" or "complete"
 	instr  map[string]string // field name -> role (by the instrument's public name)
 }
 
 func (r *otelRule) Inline(fn *ssa.Function) bool { return PkgOf(fn) == PkgOtel }
-func (r *otelRule) PredOK(string) bool            { return true }
+func (r *otelRule) PredOK(string) bool           { return true }
 
 // sigma: comma-separated "name=count" sorted
 func bump(sigma, name string) string {
